@@ -1232,3 +1232,82 @@ class kt_tovec(Contract):
         if SS is None or not isinstance(ret, Arr):
             return
         yield "layout", self._inv(S, a, dict(x=ret, offset=a["__base__"] + g["R"] * SS(g["N"])), g["N"])
+
+
+# ======================================================================= update (C08: from the parameter vector)
+
+@register
+class kt_update(Contract):
+    qual = K_ + "update"
+    props = ("C08", "C19")
+    doc = ("K.update(modes, data) for a strictly ascending list of modes from {-1 (the weights), 0, ..., N-1}, in place: the "
+           "data vector is consumed left to right, chunk t (of R entries for the weights, shape[m] * R entries for factor m) "
+           "starting at LOC(t), the sum of the sizes of the earlier chunks (defined by recursion); the weights / factor m named "
+           "at position t become that chunk (a factor column by column: entry (i, c) = data[LOC(t) + i + shape[m] * c]); "
+           "everything not named is unchanged; a data vector that is too short raises (modes >= N: bounded only).  The layout is the one "
+           "tovec writes, so update(all modes, K.tovec()) restores K.  Loop invariant over the list of modes.")
+    inline = KT_INLINE + ("pyttb.ktensor.ktensor.order",)
+
+    def setup(self, S, case):
+        K = sym_ktensor_mut(S)
+        g = K.ghost
+        L = S.nat("L")
+        modes = S.vector("modes", L, "int")
+        q1, q2 = z3.Int("up!q1"), z3.Int("up!q2")
+        mo = lambda t_: T.tz(modes.fn(t_))
+        S.assume(T.ForAll([q1], z3.Implies(z3.And(0 <= q1, q1 < L), z3.And(mo(q1) >= -1, mo(q1) < K.ghost["N"])), [mo(q1)]))
+        S.assume(T.ForAll([q1, q2], z3.Implies(z3.And(0 <= q1, q1 < q2, q2 < L), mo(q1) < mo(q2)), [[mo(q1), mo(q2)]]))
+        D = S.nat("D")
+        data = S.vector("data", D, "real")
+        R, Nn = g["R"], g["N"]
+        d = lambda m_: T.tz(g["shape"].fn(m_))
+        size = lambda m_: z3.If(m_ == -1, R, d(m_) * R)
+        LOC = z3.Function(T.fresh_name("LOC"), I_, I_)
+        IDX = z3.Function(T.fresh_name("IDX"), I_, I_)      # IDX(m): the position of mode m in the list, or -1
+        t, m = z3.Int("up!t"), z3.Int("up!m")
+        S.ctx.assume(LOC(0) == 0)
+        S.ctx.assume(T.ForAll([t], z3.Implies(z3.And(0 <= t, t < L), LOC(t + 1) == LOC(t) + size(mo(t))), [LOC(t + 1)]))
+        S.ctx.assume(T.ForAll([t], z3.Implies(z3.And(0 <= t, t < L), IDX(mo(t)) == t), [mo(t)]))
+        S.ctx.assume(T.ForAll([m], z3.Or(IDX(m) == -1, z3.And(0 <= IDX(m), IDX(m) < L, mo(IDX(m)) == m)), [IDX(m)]))
+        # lemma L9 for the chunk offsets (every chunk has a non-negative size): LOC is monotone
+        S.ctx.assume(T.ForAll([t, m], z3.Implies(z3.And(0 <= t, t <= m, m <= L), LOC(t) <= LOC(m)), [[LOC(t), LOC(m)]]),
+                     trusted="lemma:L9 prefix sums of non-negative integers are non-negative and monotone (induction, assumed)")
+        g.update(LOC=LOC, IDX=IDX, L=L, mo=mo, D=D, size=size)
+        return dict(__self__=K, modes=modes, data=data)
+
+    def raises_when(self, S, a):
+        g = a["__self__"].ghost
+        yield "data-too-short", g["D"] < g["LOC"](g["L"])
+
+    @staticmethod
+    def _state(S, a, K, tdone):
+        g = K.ghost
+        R, Nn, LOC, IDX = g["R"], g["N"], g["LOC"], g["IDX"]
+        data = N.snap(a["data"])
+        dv = lambda p_: T.tz(T.as_real(data.fn(p_)))
+        w, ent, warr = _kt_state(K)
+        heap = K.fields["factor_matrices"]
+        d = lambda m_: T.tz(g["shape"].fn(m_))
+        tdone = T.tz(tdone)
+        j, m, i = z3.Int("up!j"), z3.Int("up!sm"), z3.Int("up!i")
+        named = lambda m_: z3.And(0 <= IDX(m_), IDX(m_) < tdone)
+        return z3.And(
+            T.tz(T.eq(warr.shape[0], R)),
+            T.ForAll([j], z3.Implies(z3.And(0 <= j, j < R), w(j) == z3.If(named(-1), dv(LOC(IDX(-1)) + j), g["w"](j))), [w(j)]),
+            T.ForAll([m], z3.Implies(z3.And(0 <= m, m < Nn), z3.And(T.tz(heap.rows(m)) == d(m), T.tz(heap.cols(m)) == R)), [d(m)]),
+            T.ForAll([m, i, j], z3.Implies(z3.And(0 <= m, m < Nn, 0 <= i, i < d(m), 0 <= j, j < R),
+                                           ent(m, i, j) == z3.If(named(m), dv(LOC(IDX(m)) + i + d(m) * j), g["fm"](m, i, j))), [ent(m, i, j)]))
+
+    @staticmethod
+    def _inv(S, a, env, t):
+        K = env["self"]
+        g = K.ghost
+        return z3.And(T.tz(env["loc"]) == g["LOC"](T.tz(t)), T.tz(env["loc"]) <= g["D"], kt_update._state(S, a, K, t))
+
+    loops = {0: dict(modifies=["self", "loc"], inv=lambda S, a, env, t: kt_update._inv(S, a, env, t),
+                     havoc=lambda S, a, env, name: (_havoc_kt(S, env["self"], "up") if name == "self" else T.fresh_int("loc")))}
+
+    def ensures(self, S, a, ret):
+        K = a["__self__"]
+        yield "returns-the-object-itself", ret is K
+        yield "named-parts-replaced-by-their-chunks-the-rest-unchanged", self._state(S, a, K, K.ghost["L"])
